@@ -741,6 +741,20 @@ func (cc *ClusterContext) processAllocations(request *si.AllocationRequest) {
 		}
 
 		alloc := objects.NewAllocationFromSI(siAlloc)
+		// an allocation that cannot be converted (placeholder without a task group) must be rejected not dropped
+		if alloc == nil {
+			msg := fmt.Sprintf("Invalid allocation %s for application %s: placeholder without a task group name", siAlloc.AllocationKey, siAlloc.ApplicationID)
+			log.Log(log.SchedContext).Error("Invalid allocation add requested by shim, allocation cannot be converted",
+				zap.String("partition", siAlloc.PartitionName),
+				zap.String("applicationID", siAlloc.ApplicationID),
+				zap.String("allocationKey", siAlloc.AllocationKey))
+			rejectedAllocs = append(rejectedAllocs, &si.RejectedAllocation{
+				AllocationKey: siAlloc.AllocationKey,
+				ApplicationID: siAlloc.ApplicationID,
+				Reason:        msg,
+			})
+			continue
+		}
 
 		_, newAlloc, err := partition.UpdateAllocation(alloc)
 		if err != nil {
